@@ -304,6 +304,11 @@ def r9_by_reference(ctx, rule="C12.R9"):
 
 def run(ctx):
     rep = ctx.rep
+    rep.rule("C12.R10", "the material laws are functions of their arguments: no routine of the laws serves a remembered intermediate (cachetools, closure or instance-attribute memo) whose key omits an argument the intermediate depends on (the reference strains!)", 0)
+    from . import c26 as _c26
+    _c26.attribute_memos(ctx, "C12.R10", lambda rel: rel == MM)
+    _c26.r1_keys(ctx, _c26.find_sites(ctx), rule="C12.R10", want_cls=lambda ci: ci.rel == MM)
+    _c26.handmade_memo(ctx, "C12.R10", lambda rel: rel == MM)
     rep.rule("C12.R9", "tangents and stiffnesses the material laws hand out BY REFERENCE (`return self.C_n`, a shared module-level block) are never modified in place by the rod routines that receive them: the law stays the function of the strains it was constructed as", 3)
     r9_by_reference(ctx)
     rep.rule("C12.R8", "forces keep one factor that vanishes at the reference strains (the energy vanishes there to second order; differentiation lowers the order by one)", 4)
@@ -482,4 +487,12 @@ MUTANTS += [
 NEUTRAL += [
     dict(id="c12-n-r9", canary=True, what="rod Jacobian routine scales a product with the law's tangent (fresh array)", file='cardillo/rods/_base.py',
          old='            B_n_qe = B_n_B_Gamma @ B_Gamma_qe + B_n_B_Kappa @ B_Kappa_qe\n', new="            B_n_qe = (B_n_B_Gamma * 1.0) @ B_Gamma_qe + B_n_B_Kappa @ B_Kappa_qe\n"),
+]
+
+MUTANTS += [
+    dict(id="c12-r10-seed", canary=True, what="[seeded by sub-agent] Harsch2021 keeps the last (|B_Gamma|, |B_Gamma0|) on the instance, keyed by B_Gamma only", file=MM,
+         old='        self.C_m = np.diag(self.Fi)\n\n    def potential(self, B_Gamma, B_Gamma0, B_Kappa, B_Kappa0):\n        dG = B_Gamma - B_Gamma0\n        lambda_ = norm(B_Gamma)\n        lambda0_ = norm(B_Gamma0)\n', new='        self.C_m = np.diag(self.Fi)\n        self._stretch_key = None\n        self._stretch = None\n\n    def _stretches(self, B_Gamma, B_Gamma0):\n        key = B_Gamma.tobytes()\n        if key != self._stretch_key:\n            self._stretch_key = key\n            self._stretch = norm(B_Gamma), norm(B_Gamma0)\n        return self._stretch\n\n    def potential(self, B_Gamma, B_Gamma0, B_Kappa, B_Kappa0):\n        dG = B_Gamma - B_Gamma0\n        lambda_, lambda0_ = self._stretches(B_Gamma, B_Gamma0)\n', expect="C12.R10"),
+]
+NEUTRAL += [
+    dict(id="c12-n-r10", canary=True, what="Harsch2021 keeps the last stretches on the instance, keyed by both strains", file=MM, old='        self.C_m = np.diag(self.Fi)\n\n    def potential(self, B_Gamma, B_Gamma0, B_Kappa, B_Kappa0):\n        dG = B_Gamma - B_Gamma0\n        lambda_ = norm(B_Gamma)\n        lambda0_ = norm(B_Gamma0)\n', new='        self.C_m = np.diag(self.Fi)\n        self._stretch_key = None\n        self._stretch = None\n\n    def _stretches(self, B_Gamma, B_Gamma0):\n        key = B_Gamma.tobytes() + B_Gamma0.tobytes()\n        if key != self._stretch_key:\n            self._stretch_key = key\n            self._stretch = norm(B_Gamma), norm(B_Gamma0)\n        return self._stretch\n\n    def potential(self, B_Gamma, B_Gamma0, B_Kappa, B_Kappa0):\n        dG = B_Gamma - B_Gamma0\n        lambda_, lambda0_ = self._stretches(B_Gamma, B_Gamma0)\n'),
 ]
